@@ -81,7 +81,7 @@ Print Assumptions C01_csp_hits_exact.
 
 Theorem C01_generic_hide_exact : forall h matches pr, In 0 pr -> forall L T,
   id_inj L -> TG h matches pr L ->
-  generic_hide_hit matches pr (tags_with_set h (blocker_new h L) T) = spec_generic_hide matches L.
+  generic_hide_hit matches pr (tags_with_set h (blocker_new h L) T) = spec_generic_hide matches L T.
 Proof. exact generic_hide_exact. Qed.
 Print Assumptions C01_generic_hide_exact.
 
@@ -668,3 +668,43 @@ Theorem C01_src_unsupported_returns_default :
   CheckGen.returns_default_when = CheckGen.QNot (CheckGen.QAtom CheckGen.Q_supported).
 Proof. exact Struct_Check_Proofs.unsupported_returns_default. Qed.
 Print Assumptions C01_src_unsupported_returns_default.
+
+(* ------------------------------------------------------------------ the class of rules with a proved
+   token guarantee, completed by /re/ rules (with or without $match-case): they contribute no
+   pattern token, so only the domain / scheme tokens are at stake — no regex contract, no ASCII,
+   no cut-off premise.  Outside tg_class2 remain only fused rules (C05: fusion preserves the hits),
+   the $removeparam name fallback (C14: TG_rp) and shapes the parser never builds. *)
+From Adb Require Import Tok_Complete_Model Tok_Complete_Proofs.
+From Adb Require C11_Model Tok_Complete_Parse_Proofs.
+
+Theorem C01_token_guarantee_complete : forall h f rq odu ondu url,
+  complete_class f = true -> options_ok f odu ondu rq = true ->
+  (needs_source f = true -> C03_Model.rq_src rq <> None) ->
+  (scheme_restricted f = true -> C03_Model.rq_http rq || C03_Model.rq_https rq = true) ->
+  scheme_tie rq url -> covered h (probes h (C03_Model.rq_src rq) url) f.
+Proof. exact token_guarantee_complete. Qed.
+Print Assumptions C01_token_guarantee_complete.
+
+Theorem C01_TG_all2_list : forall re_ok re_match h matches rq r L,
+  std_request rq r -> model_hits2 re_ok re_match matches rq r L -> regex_contract2 re_ok re_match L ->
+  (forall f, In f L -> tg_class2 f = true) ->
+  TG h matches (probes h (C03_Model.rq_src rq) (lower_str (C02_Model.r_url r))) L.
+Proof. exact TG_all2_list. Qed.
+Print Assumptions C01_TG_all2_list.
+
+Theorem C01_engine_eq_rule_by_rule_subset_all2 : forall re_ok re_match h matches rq r mr fc L T,
+  id_inj L -> std_request rq r -> model_hits2 re_ok re_match matches rq r L -> regex_contract2 re_ok re_match L ->
+  (forall f, In f L -> tg_class2 f = true) ->
+  blocker_check_p matches (probes h (C03_Model.rq_src rq) (lower_str (C02_Model.r_url r))) mr fc (tags_with_set h (blocker_new h L) T)
+  = spec_verdict_p matches mr fc L T.
+Proof. exact engine_eq_spec_p_all2. Qed.
+Print Assumptions C01_engine_eq_rule_by_rule_subset_all2.
+
+(* the whole-line parser (C11_Model.network_parse, masks included) only builds /re/ rules of that
+   shape, and $match-case only on a /re/ rule *)
+Theorem C01_network_parse_complete_shape : forall lower idna line nr,
+  C11_Model.network_parse lower idna line = Ok (inl nr) ->
+  (C11_Model.mhas (C11_Model.nr_mask nr) M_MATCH_CASE = true -> C11_Model.mhas (C11_Model.nr_mask nr) M_IS_COMPLETE_REGEX = true)
+  /\ complete_shape_ok (C11_Model.mhas (C11_Model.nr_mask nr) M_IS_COMPLETE_REGEX) (C11_Model.nr_hostname nr) = true.
+Proof. exact Tok_Complete_Parse_Proofs.network_parse_complete_shape. Qed.
+Print Assumptions C01_network_parse_complete_shape.
